@@ -398,6 +398,13 @@ impl World {
         World { ms, conns: vec![], quit_rx, server_quit: None, digest: 0xcbf2_9ce4_8422_2325, steps: 0, cfg: cfg.clone() }
     }
 
+    /// a world whose server configuration was produced by the server's own start-up path
+    pub(crate) async fn from_main_config(mc: MainConfig, cfg: &SimConfig) -> World {
+        let ms = Arc::new(MainState::new_from_config(mc));
+        let quit_rx = ms.get_quit_receiver().await;
+        World { ms, conns: vec![], quit_rx, server_quit: None, digest: 0xcbf2_9ce4_8422_2325, steps: 0, cfg: cfg.clone() }
+    }
+
     pub(crate) fn open(&mut self, ip: &str, secure: bool) -> usize {
         let (stream, peer) = net::pair(secure);
         let ipaddr: IpAddr = ip.parse().unwrap_or_else(|_| "127.0.0.1".parse().unwrap());
